@@ -16,7 +16,7 @@ TInit == /\ tid \in 1..Len(TraceLines) /\ l = 1 /\ o = [op |-> "init"] /\ pcur =
          /\ vol = Vol0 /\ ending = FALSE /\ evs = {} /\ act = [op |-> "init"] /\ nops = 0 /\ nadv = 0 /\ ngames = 0
 \* the achievement's own transition table is not part of the statement: the new state is taken from the log
 ObsAch(e) == IF cur \in 1..Len(e.pl) THEN e.pl[cur].ach ELSE "none"
-Step(e) ==
+TStep(e) ==
     \/ e.op = "newgame" /\ NewGame
     \/ e.op = "modereq" /\ ModeReq(e.m)
     \/ e.op = "turnstart" /\ TurnStart
@@ -34,7 +34,7 @@ Step(e) ==
     \/ e.op = "adv" /\ Adv
     \/ e.op = "ballend" /\ BallEnd
     \/ e.op = "endgame" /\ EndGame
-TNext == l <= Len(TL) /\ Step(TL[l]) /\ o' = TL[l] /\ pcur' = cur /\ l' = l + 1 /\ UNCHANGED tid
+TNext == l <= Len(TL) /\ TStep(TL[l]) /\ o' = TL[l] /\ pcur' = cur /\ l' = l + 1 /\ UNCHANGED tid
 TSpec == TInit /\ [][TNext]_tvars
 Reporter == TraceReport(tid, l, Len(TL))
 \* ---- monitors ---------------------------------------------------------------------------------------------------
